@@ -270,6 +270,15 @@ def run_given(col, strategy, fn, n, seed, tier, sub, shrink=True):
         try:
             test()
             return
+        except hypothesis.errors.Flaky:
+            # the case violated the property when it was first executed and passed when Hypothesis executed it
+            # again: the code under test keeps state across runs within the process.  The first execution is a real
+            # history (earlier runs in the same process, then this one), so the violation stands; the saved case may
+            # need that history to reproduce.
+            if col.last_failure is None:
+                raise
+            lf = dict(col.last_failure)
+            lf["message"] = lf["message"] + " [observed once; the same case passed when executed again in this process: the outcome depends on state kept across runs]"
         except Violation as v:
             lf = col.last_failure or {
                 "signature": v.signature,
@@ -278,10 +287,9 @@ def run_given(col, strategy, fn, n, seed, tier, sub, shrink=True):
             }
             if shrink and not hyp_shrink:
                 lf = ddmin_case(lf, fn, SHRINK_CALLS[tier])
-            lf["sub"] = sub
-            col.violations.append(lf)
-            col.suppressed.add(lf["signature"])
-            continue
+        lf["sub"] = sub
+        col.violations.append(lf)
+        col.suppressed.add(lf["signature"])
 
 
 def _paths(obj, prefix=()):
@@ -384,6 +392,16 @@ def run_machine(col, machine_cls, n, steps, seed, tier, sub, shrink=True, replay
         try:
             run_state_machine_as_test(cls, settings=_hyp_settings(n, tier, hyp_shrink, steps))
             return
+        except hypothesis.errors.Flaky:
+            # (see run_given: violated when first executed, passed when executed again in this process)
+            if col.last_failure is None:
+                raise
+            lf = dict(col.last_failure)
+            lf["message"] = lf["message"] + " [observed once; the same trace passed when executed again in this process: the outcome depends on state kept across runs]"
+            lf["sub"] = sub
+            col.violations.append(lf)
+            col.suppressed.add(lf["signature"])
+            continue
         except Violation as v:
             lf = col.last_failure or {
                 "signature": v.signature,
